@@ -60,6 +60,43 @@ def event_keyed(u_events):
     return patched(f)
 
 
+class Scripted:
+    """serves prescribed numbers v in [0, 1): a draw of k numbers takes the next k of the script (cyclically);
+    .served keeps what each draw actually returned (after the low/high mapping of uniform())"""
+
+    def __init__(self, values):
+        self.values = np.asarray(values, dtype=float).ravel()
+        self.pos = 0
+        self.served = []
+
+    def _take(self, shape):
+        k = int(np.prod(shape)) if shape else 1
+        idx = (self.pos + np.arange(k)) % len(self.values)
+        self.pos += k
+        out = self.values[idx]
+        return out.reshape(shape) if shape else np.float64(out[0])
+
+    def __enter__(self):
+        self._cm = patched(self._take)
+        self._cm.__enter__()
+        # wrap once more to record the values as the code received them
+        self._inner = {n: getattr(np.random, n) for n in _NAMES}
+        rec = self
+
+        def wrap(f):
+            def g(*a, **k):
+                v = f(*a, **k)
+                rec.served.append(np.array(v, copy=True))
+                return v
+            return g
+        for n in _NAMES:
+            setattr(np.random, n, wrap(self._inner[n]))
+        return self
+
+    def __exit__(self, *exc):
+        return self._cm.__exit__(*exc)
+
+
 class Recording:
     """context manager recording every draw (kind, low, high, shape, values)"""
 
